@@ -789,10 +789,12 @@ class spawn(SpawnBase):
             p.interact()
         '''
 
-        # Flush the buffer.
-        self.write_to_stdout(self.buffer)
+        # Flush everything that was read but not yet handed back to the caller
+        # (self.buffer may hold only the tail of it), and forget it.
+        self.write_to_stdout(self._before.getvalue())
         self.stdout.flush()
         self._buffer = self.buffer_type()
+        self._before = self.buffer_type()
         mode = tty.tcgetattr(self.STDIN_FILENO)
         tty.setraw(self.STDIN_FILENO)
         if escape_character is not None and PY3:
